@@ -9,6 +9,7 @@ import (
 	"time"
 
 	ouroboros "github.com/blinklabs-io/gouroboros"
+	"github.com/blinklabs-io/gouroboros/protocol"
 	"github.com/blinklabs-io/gouroboros/protocol/blockfetch"
 	"github.com/blinklabs-io/gouroboros/protocol/chainsync"
 	pcommon "github.com/blinklabs-io/gouroboros/protocol/common"
@@ -263,7 +264,7 @@ func msgTag(b []byte) (uint64, bool) {
 
 func TestC17(t *testing.T) {
 	rec := evi.New(t, "C17", evi.Exploration,
-		"a real ouroboros.Connection (client or server × NtN/NtC/DMQ × full-duplex requested or not × peer-sharing × keep-alives, callbacks counting on every mini-protocol) handshakes with a raw peer that forces the negotiated version (every version of the mode's table) and its own diffusion / peer-sharing flags; then (a) accessors are compared with the version's protocol set, (b) every enabled protocol of every enabled role gets a minimal round trip (peer request -> responder callback + reply; client call -> request on the wire on the right protocol id and direction -> reply -> call returns), (c) one negative probe: a segment in the direction the negotiation did not enable, or for a protocol the version does not enable / the other mode's protocol / an unknown id: no callback may fire, no answer may be sent, the connection must report an error and close. Reference: roles = spec rule (duplex only NtN and only if both ends asked for it), protocols = spec version table. Non-trivial = every case (a negative probe is always made); distinct by (config, version, peer flags, probe)")
+		"a real ouroboros.Connection (client or server × NtN/NtC/DMQ × full-duplex requested or not × peer-sharing × keep-alives, callbacks counting on every mini-protocol) handshakes with a raw peer that forces the negotiated version (every version of the mode's table) and its own diffusion / peer-sharing flags; then (a) accessors are compared with the version's protocol set, (b) every enabled protocol of every enabled role gets a minimal round trip (peer request -> responder callback + reply; client call -> request on the wire on the right protocol id and direction -> reply -> call returns), (c) one negative probe: a segment in the direction the negotiation did not enable, or for a protocol the version does not enable / the other mode's protocol / an unknown id: no callback may fire, no answer may be sent, the connection must report an error and close. Reference: roles = spec rule (duplex only NtN and only if both ends asked for it), protocols = spec version table. Two history families: (duplex-history) on an NtN connection that negotiated InitiatorAndResponder, a generated sequence over {peer request to a local responder, local client call answered by the peer, the peer ends a protocol with Done/ClientDone so the local responder restarts (completion observed through the verif tracer), local chain-sync / block-fetch client Stop()+Start()} followed by a closing round in which every enabled protocol must still answer in both roles and the connection must have reported no error; (muxer-model) register/unregister of (protocol id, role) pairs on a bare muxer with segments sent to still-registered pairs, which must be delivered and must not stop the muxer. In the history families only explicit failures count (connection error, closed connection, call returning an error); an expired bound is inconclusive. Non-trivial = every case (a negative probe is always made / a history of >= 3 operations); distinct by (config, version, peer flags, probe) resp. the operation history")
 	defer rec.Finish()
 	rec.Assume(
 		"a responder is given callbacks for every mini-protocol (without them the library answers nothing)",
@@ -271,7 +272,23 @@ func TestC17(t *testing.T) {
 		"the Leios mini-protocols (no version flag, no specification) are not probed; DMQ message submission is probed for gating only",
 		"whether full duplex should also depend on the version (>= 10) is not judged: the library does not use that flag")
 
+	tracer := newRestartTracer()
+	protocol.SetVerifTracer(tracer.on)
+	defer protocol.SetVerifTracer(nil)
+
 	rec.Check(func(rt *rapid.T) {
+		// families: the single-shot configuration case (below), a history of
+		// role restarts on a full-duplex connection, and the same one level
+		// down on a bare muxer
+		switch rapid.SampledFrom([]string{"config", "config", "config", "config", "config", "duplex-history", "duplex-history", "muxer-model"}).Draw(rt, "family") {
+		case "duplex-history":
+			c17DuplexHistory(rt, rec, tracer)
+			return
+		case "muxer-model":
+			c17MuxerModel(rt, rec)
+			return
+		}
+		rec.Class("family:config")
 		cs := genC17Case(rt)
 		log := &callLog{calls: map[string]int{}}
 		a, b := rawpeer.Pipe(genPlan(rt, "planLib"), genPlan(rt, "planPeer"))
